@@ -69,7 +69,7 @@ impl Ctx {
             shards,
             scratch: Scratch::new(&format!("{prop}.{shard}")),
             started: Instant::now(),
-            budget: Duration::from_secs(tier.pick(60, 600)),
+            budget: Duration::from_secs(std::env::var("VERIF_BUDGET").ok().and_then(|s| s.parse().ok()).unwrap_or(tier.pick(60, 600))),
             evals: 0,
             distinct: HashSet::new(),
             samples: vec![],
